@@ -662,7 +662,7 @@ fn targets_case(ctx: &mut Ctx, case: u64, bin: &Path) {
     let mut rng = ctx.rng(case);
     // the target world and the component's world are drawn from the same small family
     let items = ["import a: func() -> u8;", "import b: func(x: string);", "import i0;", "export c: func() -> string;", "export d: func(x: u32) -> u32;", "export i1;"];
-    let mut pick = |rng: &mut Rng| -> Vec<usize> { (0..items.len()).filter(|_| rng.chance(1, 2)).collect() };
+    let pick = |rng: &mut Rng| -> Vec<usize> { (0..items.len()).filter(|_| rng.chance(1, 2)).collect() };
     let target = pick(&mut rng);
     let comp_items = if rng.chance(1, 3) { target.clone() } else { pick(&mut rng) };
     let two_worlds = rng.chance(1, 3);
